@@ -12,15 +12,15 @@ log=$out/confirm.log; : > $log
 echo "## demo with change (expect FAIL)" >> $log
 (cd $wt/$mod && go test -vet=off -count=1 -run "^$tname\$" ./$pkg 2>&1 | tail -15) >> $log; 
 with=$(cd $wt/$mod && go test -vet=off -count=1 -run "^$tname\$" ./$pkg >/dev/null 2>&1; echo $?)
-git stash -q
+git apply -R $out/patch.diff
 echo "## demo without change (expect PASS)" >> $log
 (cd $wt/$mod && go test -vet=off -count=1 -run "^$tname\$" ./$pkg 2>&1 | tail -5) >> $log
 without=$(cd $wt/$mod && go test -vet=off -count=1 -run "^$tname\$" ./$pkg >/dev/null 2>&1; echo $?)
-git stash pop -q
+git apply $out/patch.diff
 echo "## existing suite of module $mod with change (skip demo)" >> $log
-(cd $wt/$mod && go build ./... 2>&1 | tail -5; go test -vet=off -count=1 -timeout 25m -skip "^$tname\$" ./... 2>&1 | grep -v '^ok\|no test files' | tail -30) >> $log
+(cd $wt/$mod && go build ./... 2>&1 | tail -5; go test -vet=off -count=1 -timeout 25m -skip "^$tname\$" ./... 2>&1 | grep '^--- FAIL\|^FAIL\|^ok' | tail -40) >> $log
 if [ "$mod" != "." ]; then
 echo "## root module suite with change" >> $log
-(cd $wt && go build ./... 2>&1 | tail -5; go test -vet=off -count=1 -timeout 25m -skip "^$tname\$" ./... 2>&1 | grep -v '^ok\|no test files' | tail -30) >> $log
+(cd $wt && go build ./... 2>&1 | tail -5; go test -vet=off -count=1 -timeout 25m -skip "^$tname\$" ./... 2>&1 | grep '^--- FAIL\|^FAIL\|^ok' | tail -40) >> $log
 fi
 echo "RESULT sid=$sid with_change_exit=$with without_change_exit=$without" | tee -a $log
